@@ -528,7 +528,22 @@ def locators(doc, tier, rng):
         rng.shuffle(els)
         els = sorted(els[:10])
     out += els
-    # a few elements of the styles part
+    # elements of the styles part (Style objects and friends): first of every tag, a seeded sample in the quick tier
+    try:
+        sroot = priv(doc.get_part("styles").root)
+    except Exception:
+        sroot = None
+    if sroot is not None:
+        seen, sels = {}, []
+        for node in sroot.iter():
+            if not isinstance(node.tag, str) or node.tag in seen:
+                continue
+            seen[node.tag] = 1
+            sels.append((("sel", node.tag, 0), "element"))
+        if tier == "quick" and len(sels) > 5:
+            rng.shuffle(sels)
+            sels = sorted(sels[:5])
+        out += sels
     return out
 
 
@@ -548,7 +563,9 @@ def resolve(doc, loc):
         if kind == "row":
             return Element.from_tag(r)
         return Element.from_tag(r[loc[3]])
-    if kind == "el":
+    if kind == "sel":
+        root = priv(doc.get_part("styles").root)
+    if kind in ("el", "sel"):
         n = 0
         for node in root.iter(loc[1]):
             if n == loc[2]:
